@@ -798,6 +798,15 @@ fn parse_expr(
                         )]);
                     }
 
+                    // a prefix operator binds tighter than `?=`: `get a ?= b` is `(get a) ?= b`
+                    if !matches!(lhs, Expr::Value(Value::Ident(..))) {
+                        return Err(vec![new_err(
+                            span.as_span(),
+                            &user_data.get_source_file_name(),
+                            "this operation requires a name on its left side, but it found an expression".to_owned(),
+                        )]);
+                    }
+
                     Op::Unwrap
                 },
                 Rule::add_assign => Op::AddAssign,
